@@ -5,6 +5,7 @@ import (
 	"testing"
 	"time"
 
+	"github.com/pgavlin/dawn/verif/cosched"
 	"github.com/pgavlin/dawn/verif/ev"
 	"github.com/pgavlin/dawn/verif/rungraph"
 	"pgregory.net/rapid"
@@ -17,7 +18,8 @@ func TestMain(m *testing.M) {
 		"rapid draws an acyclic dependency graph of 2-14 targets (diamonds, shared sub-graphs, chains, fans; nodes may fail in their body or be unknown to "+
 			"LoadTarget; a node may split its dependencies over two requests and repeat a label) and a schedule: a choice vector for the cooperative token "+
 			"scheduler that owns every scheduling point of runner.go (uniform choice at every point, or run-until-block with <=3 generated preemptions), or "+
-			"a delay table for free-running parallel execution. The real runner.Run executes the graph with harness Targets. Oracle: LoadTarget and Evaluate "+
+			"a delay table for free-running parallel execution; plus free-running fan-in graphs whose 2-8 dependents are aligned by a barrier right before "+
+			"they request the same 1-4 fresh targets. The real runner.Run executes the graph with harness Targets. Oracle: LoadTarget and Evaluate "+
 			"at most once per label; when a dependency request returns every requested target has finished; each Result carries that target's actual error "+
 			"(identity) and the object LoadTarget returned; Run returns the root's outcome; no target is still executing when Run returns; no confirmed "+
 			"deadlock. Non-trivial = some target was requested by a second dependent while it had not finished. Distinct by case JSON.",
@@ -104,6 +106,36 @@ func gen(t *rapid.T) rungraph.Case {
 		}
 	}
 	return rungraph.Case{Nodes: nodes, Root: 0, Pol: rungraph.GenPolicy(t, jit)}
+}
+
+// TestC04Aligned: free-running fan-in with the dependents aligned by a barrier right before they
+// request the same fresh targets - for races in windows of the runner that contain no scheduling
+// point (e.g. a lookup followed by an insert).
+func TestC04Aligned(t *testing.T) {
+	iters := run.N(1500, 25000)
+	i := -1
+	ev.Enumerate(run, t, "aligned-fan-in", func() (rungraph.Case, bool) {
+		i++
+		if i >= iters {
+			return rungraph.Case{}, false
+		}
+		mids := 2 + i%7    // 2..8 dependents
+		leaves := 1 + i%4  // requesting the same 1..4 fresh targets
+		nodes := make([]rungraph.Node, 1+mids+leaves)
+		var midIdx, leafIdx []int
+		for m := 0; m < mids; m++ {
+			midIdx = append(midIdx, 1+m)
+		}
+		for l := 0; l < leaves; l++ {
+			leafIdx = append(leafIdx, 1+mids+l)
+		}
+		nodes[0].Reqs = [][]int{midIdx}
+		for _, m := range midIdx {
+			nodes[m].Reqs = [][]int{leafIdx}
+			nodes[m].Barrier = true
+		}
+		return rungraph.Case{Nodes: nodes, Root: 0, Pol: cosched.Policy{Mode: "jitter", Delays: []int{i % 3}}}, true
+	}, exec)
 }
 
 func TestC04(t *testing.T) {
